@@ -179,6 +179,31 @@ def headerFromWindow : List Nat → Option RecordKind
 def fromRecord (bs : List Nat) : Option RecordKind :=
   if bs.length < headerWindow then none else headerFromWindow (bs.take headerWindow)
 
+/-- `RecordHeader::is_record_of_type_chunk`: the header decoder's verdict, then the kind test
+(`none` = `Err(RecordHeaderParsingFailed)`). -/
+def isChunk (bs : List Nat) : Option Bool :=
+  if isChunkViaFromRecord then (fromRecord bs).map (· == .Chunk) else none
+
+/-- `RecordHeader::try_deserialize` on a slice of any length (what `rmp_serde::from_slice::<RecordHeader>` accepts;
+trailing bytes are ignored): a 1-array (`0x91`, `0xdc 00 01`, `0xdd 00 00 00 01`) holding the tag as an unsigned or
+non-negative signed integer of ANY width, a `bin` of length one (`0xc4 01`, `0xc5 00 01`, `0xc6 00 00 00 01`), or the
+3-byte map `{0: tag}`.  Maps longer than three bytes (string keys, ignored extra keys) are not modelled: such inputs
+are only compared under the canonical-acceptance rule (`dec RecordHeader`). -/
+def headerTryDeserialize (bs : List Nat) : Option RecordKind :=
+  let elem (rest : List Nat) : Option RecordKind :=
+    match decodeHead rest with
+    | some (.uint n, _) => tagKind n
+    | _ => none
+  match bs with
+  | 0x91 :: rest => elem rest
+  | 0xdc :: 0 :: 1 :: rest => elem rest
+  | 0xdd :: 0 :: 0 :: 0 :: 1 :: rest => elem rest
+  | 0xc4 :: 1 :: t :: _ => tagKind t
+  | 0xc5 :: 0 :: 1 :: t :: _ => tagKind t
+  | 0xc6 :: 0 :: 0 :: 0 :: 1 :: t :: _ => tagKind t
+  | [0x81, 0, t] => if t < 0x80 then tagKind t else none
+  | _ => none
+
 /-- `try_serialize_record` -/
 def trySerializeRecord (v : Val) (k : RecordKind) : List Nat := headerBytes k ++ encode v
 
